@@ -38,6 +38,7 @@ func runC06(b *Batch) {
 			continue
 		}
 		c06Case(b, i)
+		collectGarbage(i)
 	}
 }
 
@@ -98,6 +99,7 @@ func c06Case(b *Batch, idx int) {
 	rr := rand.New(rand.NewSource(c.Seed))
 	sc := newSched(c.Steered, c.Strategy, rr)
 	r := newFoRun(c.Cfg, c.keys(rr), sc)
+	defer r.release()
 	for k, st := range c.States {
 		if st != "absent" {
 			r.prepopulate(rr, k, st)
